@@ -15,6 +15,17 @@ open StarsimModel.Loop StarsimModel.RunState
 
 variable {σ : Type}
 
+/-! ### Obligations on regenerated facts (Generated/LoopFacts.lean) -/
+
+/-- The run-once guards of `Sim`, in source order: `start_step` and `run` refuse a complete sim, `finalize` refuses a
+    finalised one (the model's `run` / `finalize`). -/
+theorem C09_guards_extracted :
+    Gen.alreadyRunGuards = [("start_step", "self.complete"), ("run", "self.complete"),
+                            ("finalize", "self.results_ready")] := by decide
+
+/-- `Loop.run` stops exactly when `until` is truthy and `sim.now > until` (the model's `stopNow`). -/
+theorem C09_stop_condition_extracted : Gen.loopRunStop = "until and self.sim.now > until" := by decide
+
 /-- **Split.** For every list of pause points (in any order, repeated, beyond the end — a pause point at or before
     the cursor does nothing), running segment by segment and then to the end executes exactly the plan, in order,
     once: the state is the fold of `step` over the whole plan, the cursor is at the end, the clocks are the final
